@@ -70,12 +70,16 @@ type Contract struct {
 	AssumeFacets string // facets whose clauses are assumed, not verified, for this function
 	Extern    bool // assumed contract of an external (standard library) function
 	Trusted   bool   // contract assumed, body not verified
+	DepthGuard string    // "COUNTER LIMIT": this function is a recursion-depth guard (see depth.go)
+	AtCalls    []*Clause // obligations at every call that may lead back to this function
+	StructuralRec bool   // recursion over a finite, already built data structure (declared with a reason)
 	VerifyBody string // with Trusted: facet levels at which the body is nevertheless verified against the clauses of that level (the trusted part is then only the frame and the lower-level clauses)
 	Opaque    bool   // never inline; without ensures the result is havocked
 	NoVerify  bool   // body not verified and not claimed (documentation only)
 	Modifies  []string
 	Pure      bool
 	ArithWrap bool
+	ArithMath bool // integer +,-,* of this function are treated as mathematical (no wrap-around): an assumption, listed in the evidence
 	File      string
 	Line      int
 }
@@ -128,6 +132,8 @@ type Specs struct {
 	Ghosts    map[string]int // ghost (uninterpreted) spec functions: name -> arity
 	Folds     map[string]*Fold
 	Orbits    map[string]*Orbit
+	StructuralRecPatterns []string // "recursion structural PATTERN -- reason"
+	StructuralRecReasons  []string
 	GhostFields map[string]bool // mutable ghost state per object: heap array G.<name>, read as name(obj)
 }
 
@@ -137,7 +143,7 @@ func NewSpecs() *Specs {
 
 var clauseKeywords = map[string]bool{
 	"pred": true, "func": true, "extern": true, "ghost": true, "ghostfield": true, "fold": true, "orbit": true, "iface": true, "walk": true, "requires": true, "ensures": true, "preserves": true, "loop": true,
-	"funcparam": true, "mapspec": true, "assumefacet": true, "readonly": true, "dyncall": true, "inline": true, "trusted": true, "verifybody": true, "opaque": true, "noverify": true, "modifies": true, "pure": true, "arith": true, "axiom": true,
+	"funcparam": true, "mapspec": true, "assumefacet": true, "readonly": true, "dyncall": true, "inline": true, "trusted": true, "verifybody": true, "depthguard": true, "atcalls": true, "recursion": true, "opaque": true, "noverify": true, "modifies": true, "pure": true, "arith": true, "axiom": true,
 }
 
 // LoadSpecs reads every contracts_verif.go under repo (falling back to mirror for packages lacking one).
@@ -351,6 +357,15 @@ func (S *Specs) parseFile(path string) error {
 			oname := strings.TrimSpace(rest[:op])
 			S.Orbits[oname] = &Orbit{Name: oname, S: strings.TrimSpace(ps[0]), P: strings.TrimSpace(ps[1]), Stop: se, Next: ne, Src: rest}
 			cur = nil
+		case "recursion":
+			// recursion structural PATTERN -- reason: recursion of these functions follows a finite data structure
+			f := strings.Fields(rest)
+			if len(f) < 2 || f[0] != "structural" {
+				return fail(fmt.Errorf("recursion structural PATTERN -- reason"))
+			}
+			S.StructuralRecPatterns = append(S.StructuralRecPatterns, f[1])
+			S.StructuralRecReasons = append(S.StructuralRecReasons, strings.TrimSpace(strings.TrimPrefix(rest, "structural")))
+			cur = nil
 		case "ghostfield":
 			// ghostfield name: mutable ghost state attached to objects (heap array G.name indexed by the object's address);
 			// read in contracts as name(obj); changed only by calls whose contract lists "modifies G.name"
@@ -439,6 +454,15 @@ func (S *Specs) parseFile(path string) error {
 				cur.Trusted = true
 			case "verifybody":
 				cur.VerifyBody = strings.TrimSpace(rest)
+			case "depthguard":
+				cur.DepthGuard = strings.TrimSpace(rest)
+			case "atcalls":
+				facet, tags, label, body := splitAnnot(rest)
+				e, err := ParseExpr(body)
+				if err != nil {
+					return fail(err)
+				}
+				cur.AtCalls = append(cur.AtCalls, &Clause{Kind: "atcalls", Facet: facet, Tags: tags, Label: label, E: e, Src: strings.TrimSpace(body), File: path, Line: rc.line, Ord: len(cur.AtCalls) + 1})
 			case "opaque":
 				cur.Opaque = true
 			case "noverify":
@@ -447,6 +471,7 @@ func (S *Specs) parseFile(path string) error {
 				cur.Pure = true
 			case "arith":
 				cur.ArithWrap = strings.TrimSpace(rest) == "wrap"
+				cur.ArithMath = strings.TrimSpace(rest) == "math"
 			case "modifies":
 				for _, m := range strings.FieldsFunc(rest, func(r rune) bool { return r == ',' || r == ' ' || r == '\t' }) {
 					if m != "nothing" && !strings.HasPrefix(m, "M.") && !strings.HasPrefix(m, "H.") && !strings.HasPrefix(m, "G.") {
